@@ -109,6 +109,9 @@ struct C9 {
     pkts: Vec<usize>, // indexes into the packet pool
     /// create the VM with other offsets / another program first, then load through set_program
     via_set_program: bool,
+    /// metadata VM handed an EMPTY metadata buffer: r1 is then the packet address (0 for an empty
+    /// packet) - the interpreter's rule, which the compiled engines must share
+    mbuff_empty: bool,
 }
 
 pub fn run(a: &Args, rep: &mut Report) {
@@ -175,7 +178,8 @@ pub fn run(a: &Args, rep: &mut Report) {
             continue;
         }
         let pkts: Vec<usize> = (0..3).map(|_| rng.below(pool.len() as u64) as usize).collect();
-        cases.push(C9 { kind, offs, probe, engine, pkts, via_set_program: rng.chance(1, 3) });
+        let mbuff_empty = kind == Kind::Mbuff && matches!(probe, Probe::R1) && rng.chance(1, 2);
+        cases.push(C9 { kind, offs, probe, engine, pkts, via_set_program: rng.chance(1, 3), mbuff_empty });
     }
     let pk = |i: usize| -> (*mut u8, usize) { pool[i].as_ref().map(|g| (g.addr() as *mut u8, g.len())).unwrap_or((std::ptr::null_mut(), 0)) };
     // record per execution: status(0 ok,1 err,2 panic) value, hook mbuff addr (interp reference run)
@@ -204,7 +208,7 @@ pub fn run(a: &Args, rep: &mut Report) {
             let mut maddr = 0u64;
             let mut have_maddr = false;
             for pi in &c.pkts {
-                let mb = if c.kind == Kind::Mbuff { (mbuff.addr() as *mut u8, mbuff.len()) } else { (std::ptr::null_mut(), 0) };
+                let mb = if c.kind == Kind::Mbuff && !c.mbuff_empty { (mbuff.addr() as *mut u8, mbuff.len()) } else { (std::ptr::null_mut(), 0) };
                 if let Probe::LdAbs(wd, k) | Probe::LdInd(wd, k) | Probe::LdAbsAfterHelper(wd, k) = c.probe {
                     // compiled engines are only run on in-packet loads (outside: C11 / not claimed)
                     if c.engine != Engine::Interp && (k as usize + wd as usize) > pk(*pi).1 {
@@ -265,7 +269,7 @@ pub fn run(a: &Args, rep: &mut Report) {
         rep.set("cells", cell.clone());
         rep.set("offset_pairs", format!("{:?}", c.offs));
         rep.case(Some(crate::util::fnv(format!("{cell}{:?}{:?}{:?}", c.offs, c.pkts, c.probe).as_bytes())));
-        let w = json!({"kind": "context-case", "vm": c.kind.name(), "engine": c.engine.name(), "probe": format!("{:?}", c.probe), "offsets": [c.offs.0, c.offs.1], "via_set_program": c.via_set_program,
+        let w = json!({"kind": "context-case", "vm": c.kind.name(), "engine": c.engine.name(), "probe": format!("{:?}", c.probe), "offsets": [c.offs.0, c.offs.1], "via_set_program": c.via_set_program, "empty_metadata_buffer": c.mbuff_empty,
             "packets": c.pkts.iter().map(|i| format!("{:#x}+{}", pk(*i).0 as u64, pk(*i).1)).collect::<Vec<_>>(), "prog": hex(&probe_prog(c.probe, c.offs))});
         let sig = |k: &str| format!("C09:{}:{}:{k}", c.kind.name(), c.engine.name());
         let bad_probe = matches!(c.probe, Probe::StackAboveTop | Probe::StackBelowBottom);
@@ -301,6 +305,7 @@ pub fn run(a: &Args, rep: &mut Report) {
                     let want: Result<u64, ()> = match c.probe {
                         Probe::R1 => Ok(match c.kind {
                             Kind::Raw => if pl == 0 { 0 } else { pa },
+                            Kind::Mbuff if c.mbuff_empty => if pl == 0 { 0 } else { pa },
                             Kind::Mbuff => mbuff.addr(),
                             Kind::Fixed => maddr,
                             Kind::NoData => 0,
